@@ -25,7 +25,7 @@ func methodsFor(mode Mode) []string {
 }
 
 func c03Outcomes() []int {
-	outs := []int{OutOK, OutOK, OutGoErr, OutIsError}
+	outs := []int{OutOK, OutOK, OutGoErr, OutIsError, OutCtxDeadline, OutCtxCanceled}
 	if !Excluded("C03/nil-content") {
 		outs = append(outs, OutNilContent)
 	} else {
